@@ -249,7 +249,7 @@ func genUniverse(c *simrt.Choices, g genCfg) *Universe {
 				s.Fail = "exit"
 			}
 		}
-		if g.Features["timeouts"] && s.TimeoutMS == 0 && chance(c, 1, 6, "timeout") {
+		if g.Features["timeouts"] && s.TimeoutMS == 0 && chance(c, 1, 3, "timeout") {
 			s.TimeoutMS = 1000
 		}
 		u.Specs[s.Label()] = s
